@@ -12,7 +12,7 @@ struct C17 : Harness {
             g.o.lifecycle = false; g.o.invalid = false; g.o.midstream = true;
             int kind = *rc::gen::element((int)C128, (int)C64, (int)CM, (int)P128, (int)P64, (int)PM);
             auto bes = backends_for(kind);
-            g.add_slot(kind, *rc::gen::elementOf(bes));
+            g.add_slot(kind, *rc::gen::elementOf(bes), *rc::gen::element(0, 0xFF, 0xA5));
             int rounds = *irange(1, 2);
             for (int r = 0; r < rounds; ++r) {
                 int n = *irange(3, 14);
